@@ -140,9 +140,9 @@ def _run(ctx, text, timeout, single=False):
     res = None
     try:
         if single:
-            res = L.ctparse(text, ts=TS, timeout=timeout, scorer=st["scorer"])
+            res = L.ctparse(text, ts=TS, timeout=timeout, scorer=st["scorer"], **st.get("opts", {}))
         else:
-            for p in L.ctparse_gen(text, ts=TS, timeout=timeout, scorer=st["scorer"]):
+            for p in L.ctparse_gen(text, ts=TS, timeout=timeout, scorer=st["scorer"], **st.get("opts", {})):
                 tr.ev.append(("yield", None))
                 out.append(None if p is None else (V.jsonable(V.full(p.resolution)), [str(x) for x in p.production], p.score))
     except BaseException as e:  # noqa
@@ -163,6 +163,13 @@ def gen_cases(tier, seed):
                            "übermorgen 9pm", "friday 10-6", "11.05.2021 - 13.05.2021", "von 9 uhr bis 11 uhr"]):
         for k in (3, 9, 27):
             cases.append({"t": t + (" " * 0), "mode": "cold", "cold_k": k, "tag": "%d/%d" % (i, k)})
+    # the same obligations under the other option settings (no depth limit, depth 1, partial coverage allowed, no anchoring)
+    optsets = [{"max_stack_depth": 0}, {"max_stack_depth": 1}, {"relative_match_len": 0.5}, {"max_stack_depth": 0, "relative_match_len": 0.3, "latent_time": False}]
+    otexts = ["1 1 1 1", "tomorrow 9pm", "8 8 8 xyz 9 9", "am 5. um 8 uhr", "friday 10-6", "12.12. 12:12"]
+    for i, t in enumerate(otexts if tier == "thorough" else otexts[:4]):
+        for j, o in enumerate(optsets):
+            if tier == "thorough" or (i + j) % 2 == 0:
+                cases.append({"t": t, "mode": "strat", "o": o})
     if tier == "thorough":
         from ..spec import grammar as G
         r = C.rng(seed, "C13")
@@ -227,7 +234,8 @@ def check_trace(L, tr, nmatches):
 def run_case(case, ctx):
     L, mon = ctx["L"], ctx["mon"]
     text = case["t"]
-    key0 = "C13|" + text + ("|cold%s" % case.get("tag") if case["mode"] == "cold" else "")
+    ctx["c13"]["opts"] = dict(case.get("o") or {})
+    key0 = "C13|" + text + ("|cold%s" % case.get("tag") if case["mode"] == "cold" else "") + ("|%s" % sorted(case["o"].items()) if case.get("o") else "")
     if case["mode"] == "cold":
         return _cold(case, ctx)
     # reference: unlimited run (timeout=0) - also oracle (5)
@@ -258,6 +266,10 @@ def run_case(case, ctx):
         ks = list(range(1, nreads + 2))
     else:
         ks = sorted(set(list(range(1, 61)) + list(range(61, min(nreads, 1500), 7)) + list(range(1500, nreads, 37 if nreads < 20000 else 997)) + list(range(max(1, nreads - 20), nreads + 2))))
+    if case.get("o") and len(ks) > 130:
+        # option variants: the first 50 expiry points (initial phase), the last 20 and 60 spread over the rest
+        mid = ks[50:-20]
+        ks = ks[:50] + mid[:: max(1, len(mid) // 60)] + ks[-20:]
     fired = 0
     for k in ks:
         tr, out, err, _ = _run(ctx, text, k - 0.5)
